@@ -24,4 +24,9 @@ theorem gen_paths : Generated.C18.tempInSameDir = true ∧ Generated.C18.renameO
 theorem gen_stores : Generated.C18.storeCalls =
     List.replicate 3 ["json.Marshal", "util.WriteFileAtomic", "path-ok"] := by decide
 
+/-- `LockKeyshare` / `UnlockKeyshare` of both key-share stores do nothing but take / release the mutex: no file-system
+    call hides in the bracket every reader and writer puts around its access (model: `ObjOp.get` = Lock, Get, Unlock) -/
+theorem gen_lock_bodies : Generated.C18.lockCalls =
+    [["ks.mu.Lock"], ["ks.mu.Unlock"], ["ks.mu.Lock"], ["ks.mu.Unlock"]] := by decide
+
 end Sygma.C18
